@@ -1,7 +1,7 @@
 //! C16 — all front doors agree: builder (operators, helpers, macros, every call order), text with inline
 //! constants, text with API-supplied constants, PipeRunner presets, one-shot RoocSolver.
 use crate::core::{Local, Run};
-use crate::exact::{qf, to_f64};
+use crate::exact::{Rel, qf, to_f64};
 use crate::linsem::*;
 use crate::lm::{Dom, Sense};
 use crate::props::c01::{Case, family_a, family_a_size};
@@ -390,7 +390,8 @@ fn check_case(case: &Case, l: &mut Local) {
     // continuous models also go through the real-solver pipe (Clarabel) and the
     // standard form > tableau > step-by-step simplex pipes
     let continuous = lm_t.domain().values().all(|v| matches!(v.get_type(), rooc::VariableType::Real(_, _) | rooc::VariableType::NonNegativeReal(_, _))) && !lm_t.domain().is_empty();
-    let pipe_real = |simplex: bool| -> Result<f64, String> {
+    let declared_names: Vec<String> = m.vars.iter().map(|v| v.0.clone()).filter(|n| lm_t.variables().contains(n)).collect();
+    let pipe_real = |simplex: bool| -> Result<(f64, Vec<(String, Option<f64>)>), String> {
         let mut pipes: Vec<Box<dyn rooc::pipe::Pipeable>> = vec![Box::new(CompilerPipe::new()), Box::new(PreModelPipe::new()), Box::new(ModelPipe::new()), Box::new(LinearModelPipe::new())];
         if simplex {
             pipes.push(Box::new(rooc::pipe::StandardLinearModelPipe::new()));
@@ -404,10 +405,11 @@ fn check_case(case: &Case, l: &mut Local) {
         match runner.run(PipeableData::String(text_inline.clone()), &ctx) {
             Ok(stages) => {
                 let last = stages.last().cloned().unwrap();
+                let named = |s: &rooc::LpSolution<f64>| (s.value(), declared_names.iter().map(|n| (n.clone(), s.value_of(n))).collect::<Vec<_>>());
                 if simplex {
-                    last.to_optimal_tableau_with_steps().map(|t| t.result().as_lp_solution().value()).map_err(|e| format!("{e}"))
+                    last.to_optimal_tableau_with_steps().map(|t| named(&t.result().as_lp_solution())).map_err(|e| format!("{e}"))
                 } else {
-                    last.to_real_solution().map(|s| s.value()).map_err(|e| format!("{e}"))
+                    last.to_real_solution().map(|s| named(&s)).map_err(|e| format!("{e}"))
                 }
             }
             Err((e, _)) => Err(format!("{e}")),
@@ -429,6 +431,76 @@ fn check_case(case: &Case, l: &mut Local) {
         ("builder", built.as_ref().map(|s| s.value()).map_err(|e| e.clone())),
     ];
     let mut values = values;
+    // values read back by variable name through every door: each declared variable of the compiled model has a
+    // value, inside its declared domain, and the source rows hold at those values
+    let mut named_doors: Vec<(&str, Vec<(String, Option<f64>)>)> = vec![];
+    let milp_named = |s: &rooc::LpSolution<rooc::MILPValue>| declared_names.iter().map(|n| (n.clone(), s.value_of(n).map(f64::from))).collect::<Vec<_>>();
+    if let Ok(s) = &direct {
+        named_doors.push(("auto_solver", milp_named(s)));
+    }
+    if let Ok(s) = &one_shot {
+        named_doors.push(("RoocSolver", milp_named(s)));
+    }
+    if let Ok(s) = &pipe_milp {
+        named_doors.push(("pipe-milp", milp_named(&s.1)));
+    }
+    if let Ok(s) = &pipe_auto {
+        named_doors.push(("pipe-auto", milp_named(&s.1)));
+    }
+    if let Some(Ok(v)) = &pipe_clarabel {
+        named_doors.push(("pipe-real-solver", v.1.clone()));
+    }
+    if let Some(Ok(v)) = &pipe_simplex {
+        named_doors.push(("pipe-step-by-step-simplex", v.1.clone()));
+    }
+    // the one-shot slow-simplex entry point shares the tableau read-back
+    if continuous && m.sense != Sense::Satisfy {
+        if let Ok(Ok(s)) = crate::core::catch(|| rooc::solve_real_lp_problem_slow_simplex(lm_t, 10000)) {
+            named_doors.push(("solve_real_lp_problem_slow_simplex", declared_names.iter().map(|n| (n.clone(), s.value_of(n))).collect()));
+        }
+    }
+    for (door, named) in &named_doors {
+        l.count("doors_read_back_by_name");
+        let mut env = Env::new();
+        let mut complete = true;
+        for (name, v) in named {
+            let dom = m.vars.iter().find(|x| &x.0 == name).unwrap().1.clone();
+            match v {
+                None => {
+                    complete = false;
+                    l.violation(sig("declared-variable-has-no-value-by-name"), format!("[{door}] {name} has no value in the returned solution"), case_json(format!("{door}: {name}")));
+                }
+                Some(v) => {
+                    let (lo, hi) = dom.bounds();
+                    if !(*v >= lo - 1e-6 && *v <= hi + 1e-6) || (dom.is_int() && (v - v.round()).abs() > 1e-6) {
+                        l.violation(sig("named-value-outside-domain"), format!("[{door}] {name} = {v} is outside {}", dom.show()), case_json(format!("{door}: {name}")));
+                    }
+                    env.insert(name.clone(), qf(if dom.is_int() { v.round() } else { *v }));
+                }
+            }
+        }
+        if !complete {
+            break;
+        }
+        if declared_names.len() == m.vars.len() {
+            for (ci, c) in m.cons.iter().enumerate() {
+                if let (Ok(a), Ok(b)) = (eval(&c.lhs, &env), eval(&c.rhs, &env)) {
+                    let d = to_f64(&(a - b));
+                    let holds = match c.rel {
+                        Rel::Le => d <= 1e-5,
+                        Rel::Ge => d >= -1e-5,
+                        Rel::Eq => d.abs() <= 1e-5,
+                    };
+                    l.count("rows_checked_at_named_values");
+                    if !holds {
+                        l.violation(sig("named-values-violate-a-source-row"), format!("[{door}] row_{ci} does not hold at the values read back by name"), case_json(format!("{door}: row_{ci}")));
+                    }
+                }
+            }
+        }
+    }
+    let pipe_clarabel = pipe_clarabel.map(|r| r.map(|v| v.0));
+    let pipe_simplex = pipe_simplex.map(|r| r.map(|v| v.0));
     if let Some(v) = pipe_clarabel {
         values.push(("pipe-real-solver", v));
     }
@@ -653,7 +725,7 @@ pub fn run(mut run: Run) -> ! {
     run.case_timeout_s = 60.0;
     let quick = run.quick();
     let depth = if quick { 1 } else { 2 };
-    run.rule = "generator-AST models (objective family and constraint family of C02/C01 over bounded declarations, objectives over three variables with different ranges, every row named) are expressed through: the fluent builder via operator overloads and helper functions (three operand spellings: Expr op Expr only; the most specific overload per operand pair over i32/f64 literals, Var handles, bool and helper functions over Var items; f64-only literals with Expr op &Expr) with EVERY call order (objective at each of the k+1 positions, every split of the constraints between with and with_all, satisfy explicit or defaulted, with and without two declared-but-unused variables), source text with inline constants, source text with the constants supplied through the API, PipeRunner chains (Compiler>PreModel>Model>LinearModel>MILP and >Auto; for continuous models also >RealSolver and >StandardLinearModel>Tableau>StepByStepSimplex), RoocSolver one-shot, plus compiled-in macro models that use every rule of constraint! (<=, >=, ==, <, >, ->, <->, bare logic; labelled and unlabelled), expr! with -> and <->, and every scalar and array declaration form of vars!; linear models are compared row for row (modulo unused builder variables), verdicts and optimal values across doors, pipe stage outputs with direct calls, and values read back through handles, names and eval with the reference semantics; distinct = source texts; non-trivial = compiles".into();
+    run.rule = "generator-AST models (objective family and constraint family of C02/C01 over bounded declarations, objectives over three variables with different ranges, every row named) are expressed through: the fluent builder via operator overloads and helper functions (three operand spellings: Expr op Expr only; the most specific overload per operand pair over i32/f64 literals, Var handles, bool and helper functions over Var items; f64-only literals with Expr op &Expr) with EVERY call order (objective at each of the k+1 positions, every split of the constraints between with and with_all, satisfy explicit or defaulted, with and without two declared-but-unused variables), source text with inline constants, source text with the constants supplied through the API, PipeRunner chains (Compiler>PreModel>Model>LinearModel>MILP and >Auto; for continuous models also >RealSolver and >StandardLinearModel>Tableau>StepByStepSimplex), RoocSolver one-shot, plus compiled-in macro models that use every rule of constraint! (<=, >=, ==, <, >, ->, <->, bare logic; labelled and unlabelled), expr! with -> and <->, and every scalar and array declaration form of vars!; linear models are compared row for row (modulo unused builder variables), verdicts and optimal values across doors, pipe stage outputs with direct calls, values read back by variable name through every solving door (each declared variable has a value inside its domain and the source rows hold there), and values read back through handles, names and eval with the reference semantics; distinct = source texts; non-trivial = compiles".into();
     run.assume("identical expression trees must give identical linear models; the builder keeps unused variables, which are projected away; tolerance 1e-6 on optimal values and read-back");
     // the quick tier uses the full declaration / constant menus at context depth 1
     let n2 = c02::family_size_pub(depth, false);
